@@ -362,6 +362,8 @@ EXT_SIDE = ['.run_info.yaml', '.log']
 def observe(job):
     """One TLC case on the real code.  Returns [(category, sig, text)]."""
     idx, case, variants, seed = job
+    want_xns = 'xns' in variants or 'ctxuses' in variants
+    variants = [v for v in variants if v != 'xns']
     module()
     rng = random.Random(seed * 7919 + idx)
     root = scratch(f'keys-{os.getpid()}') / f'k{idx}'
@@ -411,7 +413,7 @@ def observe(job):
                     sides = [Path(d.run_info_path).name, Path(d.log_path).name]
                     if sides != [want[t] + e for e in EXT_SIDE]:
                         bad.append(('layout', f'side:{t}', f'side files of {name} are {sides}'))
-        if case.get('xns') and 'ctxuses' in variants and case['va']['t'] not in ('auto', 'inst') and idx % 7 == 0:
+        if case.get('xns') and want_xns and case['va']['t'] not in ('auto', 'inst') and idx % 7 == 0:
             wantx = {k: key_of(v) for k, v in case['xns'].items()}
             for mi, mount in enumerate(XNS_MOUNTS):
                 try:
